@@ -123,7 +123,7 @@ def run_replay(path, quiet=False):
 
 def run_check(tier):
     out = Outcome('C12', tier)
-    budget = 900 if tier == 'quick' else 7200
+    budget = 900 if tier == 'quick' else 5400
     cases = grid(tier)
     d, csrc, m = generated(False)
     # vacuity: a complete run must be reachable in the smallest instance
@@ -134,6 +134,9 @@ def run_check(tier):
     for r in res:
         c = r['case']; out.cov['obligations'] += 1; out.cov['solver_time_s'] += r['wall']
         if r['verdict'] == 'SUCCESS': out.cov['discharged'] += 1; continue
+        if r['verdict'] == 'TIMEOUT' and tier != 'quick':
+            # a multi-worker instance that does not come back within the budget is not explored: said so, neither held nor failed
+            print('NOT-EXPLORED: %s did not finish within %d s' % (r['name'], budget)); out.cov.setdefault('not_explored', []).append(r['name']); out.cov['obligations'] -= 1; continue
         if r['verdict'] != 'FAILED': out.errors.append('%s: %s %s' % (r['name'], r['verdict'], r['err'][-160:].strip().replace('\n', ' '))); continue
         fl = [(f[0], re.sub(r'^line \d+ ', '', f[1])) for f in r['failed']]
         viol = [f for f in fl if f[1].startswith('C12 ')]
